@@ -95,7 +95,11 @@ def gen_single(rng, use_locals=False):
             for c in rng.sample(CONSTS, rng.randint(1, 2)): consts[c] = rng.choice([0.0, 1.0, -2.5, 0.5, 3.0, 40.0, -1e3])
             locs.update(consts)
         if rng.random() < 0.6 or not consts:
-            tol, rel = rng.choice(TOLS); locs.update({'tol': tol, 'rel': rel})
+            tol, rel = rng.choice(TOLS)
+            given = rng.choice(['both', 'both', 'tol', 'rel'])      # one given alone: the other keeps its documented default of 1e-15
+            if given == 'tol': rel = 1e-15; locs.update({'tol': tol})
+            elif given == 'rel': tol = 1e-15; locs.update({'rel': rel})
+            else: locs.update({'tol': tol, 'rel': rel})
     rhs = gen_expr(rng, names + list(consts), names[i], rng.randint(0, 3))
     if consts and not any(c in rhs for c in consts):
         rhs = '%s + %s' % (rhs, sorted(consts)[0])
